@@ -19,6 +19,7 @@ CONSTANTS
   FIX_READD = TRUE
   FIX_STALE = TRUE
   FIX_RENAMEDIR = TRUE
+  FIX_SCANWATCHED = TRUE
   RECORD = FALSE
 INVARIANTS NotDone
 CHECK_DEADLOCK FALSE
